@@ -54,21 +54,21 @@ Definition check (c : case) : bool :=
       let m := map_of_pairs ord in
       bytes_eqb (line_ord (tbl_quote qt) ord) ln &&
       option_eqb okvmap_eqb (out_opt (to_map (tbl_unquote ut) ln)) (Some back) &&
-      (* the instance of the round-trip theorem: a safe canonical map comes back *)
+      (* the instance of the round-trip theorem (C08_tags_partial): a safe canonical map comes back *)
       implb (tag_safe m) (okvmap_eqb back (Some m))
   | KFParse s ut obs => option_eqb obytes_eqb (out_opt (fields_of_kv (tbl_unquote ut) s)) (Some obs)
   | KFPrint f ut qt txt back =>
       match as_kv (tbl_quote qt) f, txt with
       | Ok t, Some t' => bytes_eqb t t' &&
                          option_eqb obytes_eqb (out_opt (fields_of_kv (tbl_unquote ut) t)) (Some back) &&
-                         implb (fields_safe (tbl_quote qt) f) (obytes_eqb back (Some f))
+                         implb (fields_wf f) (obytes_eqb back (Some f))
       | Panic, None => true
       | _, _ => false
       end
   | KProv ord ut qt obs =>
       let m := map_of_pairs ord in
       option_eqb obytes_eqb (out_opt (fields_of_kv (tbl_unquote ut) (line_ord (tbl_quote qt) ord))) (Some obs) &&
-      implb (tag_safe m && forallb (prov_pair_ok (tbl_quote qt)) m) (obytes_eqb obs (Some (enc_fields (flat m))))
+      implb (tag_safe m && forallb prov_pair_ok m) (obytes_eqb obs (Some (enc_fields (flat m))))
   | KE2E tg wf ef ut qt acked obs =>
       match to_map (tbl_unquote ut) tg, fields_of_kv (tbl_unquote ut) wf with
       | Ok (kv :: m), Ok f1 =>
